@@ -165,6 +165,7 @@ def cubes_role(tier, seed):
 
 
 HARNESSES = {'role': {'fn': run_role, 'cubes': cubes_role,
+                      'concretize_limit': 40000,
                       'budget_s': {'quick': 600, 'thorough': 3000}}}
 REQUIRED_COVER = ['form:' + f for f in FORMS] + [
     'allowed', 'denied', 'missing-key', 'no-roles-entry']
